@@ -1103,6 +1103,19 @@ async def op_watch(env, ctx, step):
     return 'watching'
 
 
+async def op_nested(env, ctx, step):
+    """a complete simulation run synchronously from inside an activity (nested run()); the
+    enclosing simulation goes on afterwards"""
+    async def inner():
+        await (time + step['d'])
+        await instant
+
+    before = time.now
+    usim.run(inner(), start=step.get('start', 0))
+    env.sess.stats['nested_runs'] += 1
+    return time.now == before
+
+
 async def op_graceful(env, ctx, step):
     """a body with an *asynchronous* clean-up: when the body is cancelled, interrupted or fails
     (anything but a forceful close) the clean-up steps are awaited before the exception passes on
@@ -1144,7 +1157,7 @@ HANDLERS = {
     'borrow': op_borrow, 'resource': op_resource, 'transfer': op_transfer,
     'scope': op_scope, 'spawn': op_spawn, 'cancel': op_cancel, 'await_task': op_await_task,
     'raise': op_raise, 'ticker': op_ticker, 'collect': op_collect, 'first': op_first,
-    'nop': op_nop, 'try': op_try, 'guard': op_guard, 'watch': op_watch, 'graceful': op_graceful, 'fragile': op_fragile,
+    'nop': op_nop, 'try': op_try, 'guard': op_guard, 'watch': op_watch, 'nested': op_nested, 'graceful': op_graceful, 'fragile': op_fragile,
 }
 
 
